@@ -71,7 +71,7 @@ func callGenerateCode(spec []byte, outDir string) error {
 			return fmt.Errorf("harness: manifest does not decode: %w", err)
 		}
 		ms := reflect.Append(reflect.MakeSlice(ft.In(1), 0, 1), m)
-		res = fn.Call([]reflect.Value{reflect.ValueOf(outDir), ms, reflect.ValueOf(false)})
+		res = fn.Call([]reflect.Value{reflect.ValueOf(outDir), ms, reflect.ValueOf(os.Getenv("VERIF_C20_PKGROOT") == "1")})
 	case ft.NumIn() == 2 && ft.In(0).Kind() == reflect.Slice && ft.In(1).Kind() == reflect.String:
 		res = fn.Call([]reflect.Value{reflect.ValueOf(spec), reflect.ValueOf(outDir)})
 	default:
@@ -96,9 +96,12 @@ func TestHelperGenerate(t *testing.T) {
 }
 
 // generate runs the generator in a fresh process with working directory cwd and output directory out.
-func generate(specFile, cwd, out string) (failure string) {
+func generate(specFile, cwd, out string, withPackageRoot ...bool) (failure string) {
 	c := exec.Command(selfExe(), "-test.run", "^TestHelperGenerate$", "-test.count", "1")
 	c.Env = append(helperEnviron("generate"), "VERIF_C20_SPEC="+specFile, "VERIF_C20_OUT="+out)
+	if len(withPackageRoot) > 0 && withPackageRoot[0] {
+		c.Env = append(c.Env, "VERIF_C20_PKGROOT=1")
+	}
 	c.Dir = cwd
 	var buf bytes.Buffer
 	c.Stdout, c.Stderr = &buf, &buf
@@ -123,6 +126,9 @@ type regenCase struct {
 	Dot             bool             `json:"dot"`               // generator runs inside the output directory with output dir "."
 	// NoUserFiles: the output directory holds nothing but (stale) generator-owned files, so cleaning empties it
 	NoUserFiles bool `json:"no_user_files,omitempty"`
+	// PackageRoot (v2 only): the generator runs with generateWithPackageRoot, so everything lands below
+	// <out>/<package root of the manifest>/ - also the hand-written custom typeref it has to locate there
+	PackageRoot bool `json:"generate_with_package_root,omitempty"`
 	// DirAtGeneratedPath: a user directory (holding a user file) sits exactly where the generator wants to write a file
 	// (verif/c20/Rec.gr.go/): the generator may fail, the directory and its content must survive
 	DirAtGeneratedPath bool `json:"dir_at_generated_path,omitempty"`
@@ -153,7 +159,11 @@ func populate(c regenCase) *cleanmodel.Node {
 	if c.WithTyperefImpl {
 		pkg.Children = append(pkg.Children, f(regenTyperef+".go", "package c20\n\n// hand-written custom typeref\ntype MyTyperef int64\n", 0o644))
 	}
-	root.Children = append(root.Children, d("verif", pkg, d("old", f("Gone.gr.go", "package old\n", 0o444))))
+	verifDir := d("verif", pkg, d("old", f("Gone.gr.go", "package old\n", 0o444)))
+	if c.PackageRoot {
+		verifDir = d("example.com", d("gen", verifDir, f(r.Manifest, "stale manifest below the package root", 0o444)))
+	}
+	root.Children = append(root.Children, verifDir)
 	hasManifest := false
 	for _, ch := range root.Children {
 		if ch.Name == r.Manifest {
@@ -216,6 +226,9 @@ func checkRegen(rec *stats.Recorder, c regenCase) (msg string) {
 	if c.NoUserFiles {
 		labels = append(labels, "regen_only_generator_owned_files")
 	}
+	if c.PackageRoot {
+		labels = append(labels, "regen_generate_with_package_root")
+	}
 	if c.DirAtGeneratedPath {
 		labels = append(labels, "regen_user_dir_at_generated_path")
 	}
@@ -234,7 +247,7 @@ func checkRegen(rec *stats.Recorder, c regenCase) (msg string) {
 			cwd, arg = out, "."
 			before, _ = os.Stat(out)
 		}
-		if fail := generate(specFile, cwd, arg); fail != "" {
+		if fail := generate(specFile, cwd, arg, c.PackageRoot); fail != "" {
 			if c.DirAtGeneratedPath {
 				return "" // the generator cannot write its file over a user directory: failing is fine, destroying is not
 			}
@@ -293,7 +306,11 @@ func checkRegen(rec *stats.Recorder, c regenCase) (msg string) {
 		}
 	}
 	g1 := generatedSet(s1, exp.Survive)
-	if _, ok := g1[r.Manifest]; !ok || len(g1) < 2 {
+	pfx := ""
+	if c.PackageRoot {
+		pfx = v2PackageRoot + "/"
+	}
+	if _, ok := g1[pfx+r.Manifest]; !ok || len(g1) < 2 {
 		panic(fmt.Sprintf("C20 harness: the generator did not produce a manifest and code: %v", keys(g1)))
 	}
 	for _, p := range keys(g1) {
@@ -302,8 +319,10 @@ func checkRegen(rec *stats.Recorder, c regenCase) (msg string) {
 		}
 	}
 	noteOnce(rec, fmt.Sprintf("%s generator output with custom typeref implementation present=%v: %v", hx.Gen(), c.WithTyperefImpl, keys(g1)))
-	if _, ok := g1[regenPkgDir+"/"+regenTyperef+".gr.go"]; ok && c.WithTyperefImpl && hx.Gen() == "v2" {
-		rec.Label("regen_typeref_generated_despite_custom_impl", 1)
+	if _, ok := g1[pfx+regenPkgDir+"/"+regenTyperef+".gr.go"]; ok && c.WithTyperefImpl && hx.Gen() == "v2" {
+		// (v2: a hand-written <Typeref>.go beside the generated code is located and the typeref is NOT generated; the root
+		// generator has no notion of custom typerefs and always generates it)
+		return fmt.Sprintf("G7: first generation: the custom typeref implementation %s.go was not located: %s.gr.go was generated beside it", regenTyperef, regenTyperef) + describe(s1)
 	}
 
 	// explicit clean: generated files disappear, user files stay
@@ -345,6 +364,7 @@ func genRegenCase(t *rapid.T) regenCase {
 	var c regenCase
 	c.WithTyperefImpl = rapid.Bool().Draw(t, "typeref_impl")
 	c.Dot = rapid.Bool().Draw(t, "dot")
+	c.PackageRoot = hx.Gen() == "v2" && rapid.IntRange(0, 3).Draw(t, "package_root") == 0
 	if rapid.IntRange(0, 7).Draw(t, "no_user_files") == 0 {
 		c.WithTyperefImpl, c.NoUserFiles = false, true
 		c.User = &cleanmodel.Node{Dir: true, Mode: 0o755}
@@ -390,6 +410,8 @@ func TestC20Regen(t *testing.T) {
 		{User: empty, WithTyperefImpl: true, Dot: true},
 		{User: empty, NoUserFiles: true, Dot: true},
 		{User: empty, NoUserFiles: true},
+		{User: empty, WithTyperefImpl: true, PackageRoot: hx.Gen() == "v2"},
+		{User: empty, WithTyperefImpl: true, PackageRoot: hx.Gen() == "v2", Dot: true},
 		{User: empty, DirAtGeneratedPath: true},
 		{User: empty, DirAtGeneratedPath: true, Dot: true},
 		{User: nil},
